@@ -244,6 +244,37 @@ let canon_reply (name : string) (toks : string list) : string list =
   | "HSCAN", (a :: c :: hd :: rest) when a = "A2" -> a :: c :: hd :: sort_pairs rest
   | _ -> toks
 
+(* change records: the record type of patch.Op and the key it names *)
+let pop_name_key (o : Db.pop) : string * string =
+  match o with
+  | Db.PSet (k, _, _, _) -> ("Set", sb k)
+  | Db.PExpire (k, _) -> ("Expire", sb k)
+  | Db.PPersist k -> ("Persist", sb k)
+  | Db.PRename (k, _) -> ("Rename", sb k)
+  | Db.PLPush (k, _) -> ("LPush", sb k) | Db.PRPush (k, _) -> ("RPush", sb k)
+  | Db.PLPushX (k, _) -> ("LPushX", sb k) | Db.PRPushX (k, _) -> ("RPushX", sb k)
+  | Db.PLPop (k, _) -> ("LPop", sb k) | Db.PRPop (k, _) -> ("RPop", sb k)
+  | Db.PLInsert (k, _, _, _) -> ("LInsert", sb k)
+  | Db.PLRem (k, _, _) -> ("LRem", sb k) | Db.PLSet (k, _, _) -> ("LSet", sb k)
+  | Db.PLTrim (k, _, _) -> ("LTrim", sb k)
+  | Db.PLPopRPush (k, _) -> ("LPopRPush", sb k) | Db.PRPopLPush (k, _) -> ("RPopLPush", sb k)
+  | Db.PHSet (k, _, _) -> ("HSet", sb k) | Db.PHDel (k, _) -> ("HDel", sb k)
+  | Db.PHIncrBy (k, _, _) -> ("HIncrBy", sb k) | Db.PHIncrByFloat (k, _, _) -> ("HIncrByFloat", sb k)
+  | Db.PSAdd (k, _) -> ("SAdd", sb k) | Db.PSRem (k, _) -> ("SRem", sb k)
+  | Db.PZAdd (k, _, _) -> ("ZAdd", sb k) | Db.PZIncrBy (k, _, _) -> ("ZIncrBy", sb k)
+  | Db.PZRem (k, _) -> ("ZRem", sb k)
+  | Db.PZRemRangeByRank (k, _, _) -> ("ZRemRangeByRank", sb k)
+  | Db.PZRemRangeByScore (k, _, _, _) -> ("ZRemRangeByScore", sb k)
+  | Db.PZUnionStore (k, _) -> ("ZUnionStore", sb k) | Db.PZInterStore (k, _) -> ("ZInterStore", sb k)
+  | Db.PDel k -> ("Del", sb k) | Db.PClear -> ("Clear", "")
+
+let new_records (before : Db.db) (after : Db.db) : string list =
+  let nb = List.length before.Db.events and na = List.length after.Db.events in
+  let fresh = List.rev (take (max 0 (na - nb)) after.Db.events) in
+  List.filter_map (function
+    | Db.EvNotify o -> let (nm, k) = pop_name_key o in Some (nm ^ " " ^ tok_bytes k)
+    | _ -> None) fresh
+
 type trace_stats = { mutable cases : int; mutable steps : int; mutable unm : int; mutable diffs : int;
                      mutable cut_cases : int; mutable ambiguous : int }
 
@@ -287,6 +318,19 @@ let trace_main file =
            | [] -> (List.rev acc, []) in
          let (lhs, reply) = split [] toks in
          let dump = read_dump () in
+         (* the change records the step produced, when a feed is attached: "REC ..." then "R <type> <key> ..." *)
+         let feed : string list option =
+           if !i < n && String.length lines.(!i) >= 4 && String.sub lines.(!i) 0 4 = "REC " then begin
+             incr i;
+             let acc = ref [] in
+             while !i < n && (let l = lines.(!i) in String.length l >= 2 && l.[0] = 'R' && (l.[1] = ' ' || l.[1] = '2' || l.[1] = 'E' || l.[1] = 'D' || l.[1] = 'K')) do
+               (match split_ws lines.(!i) with
+                | "R" :: nm :: k :: _ -> acc := (nm ^ " " ^ k) :: !acc
+                | _ -> ());
+               incr i
+             done;
+             Some (List.rev !acc)
+           end else None in
          let nl = List.length lhs in
          let t0 = Z.of_string (List.nth lhs (nl - 2)) and t1 = Z.of_string (List.nth lhs (nl - 1)) in
          let cands =
@@ -322,7 +366,13 @@ let trace_main file =
                   | `Res (s', mr, md) when mr = impl_reply && (dump = [] || md = dump) -> Some s'
                   | _ -> None) results in
                 match ok with
-                | s' :: _ -> server := s'
+                | s' :: _ ->
+                    let recs = new_records !server.Conn.s_db s'.Conn.s_db in
+                    server := s';
+                    (match feed with
+                     | Some impl_recs when List.sort compare impl_recs <> List.sort compare recs ->
+                         fail "records" (String.concat " ; " recs) (String.concat " ; " impl_recs)
+                     | _ -> ())
                 | [] ->
                     (* TTL has nanosecond resolution: allow the neighbouring millisecond *)
                     let ttl_ok =
